@@ -159,6 +159,12 @@ func runConfirmed(ctx *core.Ctx, in c20Input, run func(*tally, c20Input)) {
 type c20Op struct {
 	Op string `json:"op"` // end | add | cancel | size
 	M  int    `json:"m,omitempty"`
+	// scribble (spread scripts only): the caller writes context M into position I of the slice it
+	// spread into NewPool (I may lie in the spare capacity). pool2: the caller refills the slice
+	// with Ids, builds a second pool from it and cancels that pool at once. Neither concerns the
+	// pool under test: for the model and the spec they are a look (SSize).
+	I   int   `json:"i,omitempty"`
+	Ids []int `json:"ids,omitempty"`
 	// Fast (add, cancel, size only; scripts only): the next operation follows at once, on the
 	// same goroutine; the pool is not left to settle and nothing is observed after this one.
 	Fast bool `json:"fast,omitempty"`
@@ -170,6 +176,11 @@ type c20Input struct {
 	Pre  []int   `json:"pre,omitempty"`  // ids ended before NewPool
 	Init []int   `json:"init,omitempty"` // ids passed to NewPool, in order
 	Ops  []c20Op `json:"ops,omitempty"`
+	// Spread (scripts): the pool is created as NewPool(s...) from a slice s of the caller with
+	// CapExtra spare capacity, which the caller goes on using (scribble, pool2); after every step
+	// the harness compares s[:cap(s)] with what the caller itself put there.
+	Spread   bool `json:"spread,omitempty"`
+	CapExtra int  `json:"cap_extra,omitempty"`
 	// nested: after Ops, Add(M) whose Done() callback performs Nested; then Ops2
 	M      int     `json:"m,omitempty"`
 	Nested string  `json:"nested,omitempty"` // cancel | size | end
@@ -485,7 +496,7 @@ func opCoq(op c20Op) string {
 		return "SAdd " + hx.CoqZ(int64(op.M))
 	case "cancel":
 		return "SCancel"
-	case "size":
+	case "size", "scribble", "pool2":
 		return "SSize"
 	}
 	panic("c20: bad op " + op.Op)
@@ -502,7 +513,14 @@ func opsCoq(ops []c20Op) string {
 func opsShape(ops []c20Op) string {
 	shape := make([]string, len(ops))
 	for i, op := range ops {
-		shape[i] = fmt.Sprintf("%s%d", op.Op[:1], op.M)
+		switch op.Op {
+		case "scribble":
+			shape[i] = fmt.Sprintf("w%d=%d", op.I, op.M)
+		case "pool2":
+			shape[i] = fmt.Sprintf("p%v", op.Ids)
+		default:
+			shape[i] = fmt.Sprintf("%s%d", op.Op[:1], op.M)
+		}
 		if op.Fast {
 			shape[i] += "!"
 		}
@@ -515,12 +533,16 @@ type runner struct {
 	cs       *ctxSet
 	ex       *expect
 	p        *kitctx.Pool
-	base     int    // goroutines of the package under test before the pool existed
-	leakSeen bool   // at a look that saw the pool done its goroutine was still there at the deadline
-	wedged   string // a pool call that did not return within the deadline, or panicked
-	panicked bool
-	dropped  bool // a liveness wait failed under the shortened deadline: the case is not recorded
-	doneBy   string
+	base     int  // goroutines of the package under test before the pool existed
+	leakSeen bool // at a look that saw the pool done its goroutine was still there at the deadline
+	// spread scripts: the caller's slice (full capacity), what the caller put there, and the first
+	// step after which the two differed ("" = never)
+	slice, shadow []context.Context
+	sliceChanged  string
+	wedged        string // a pool call that did not return within the deadline, or panicked
+	panicked      bool
+	dropped       bool // a liveness wait failed under the shortened deadline: the case is not recorded
+	doneBy        string
 }
 
 func (r *runner) stopped() bool { return r.wedged != "" || r.dropped }
@@ -620,8 +642,48 @@ func newRunner(in c20Input, later ...[]c20Op) (*runner, c20Obs) {
 			}
 		}
 	}
+	for _, ops := range append([][]c20Op{in.Ops}, later...) {
+		for _, op := range ops {
+			switch op.Op {
+			case "scribble":
+				if !in.Spread || op.I < 0 || op.I >= len(in.Init)+in.CapExtra {
+					panic("c20: scribble outside a spread slice")
+				}
+				r.cs.get(op.M)
+			case "pool2":
+				if !in.Spread || len(op.Ids) > len(in.Init)+in.CapExtra {
+					panic("c20: pool2 needs a spread slice that holds its ids")
+				}
+				for _, id := range op.Ids {
+					r.cs.get(id)
+				}
+			}
+		}
+	}
+	if in.Spread {
+		r.slice = make([]context.Context, len(ctxs), len(ctxs)+in.CapExtra)
+		copy(r.slice, ctxs)
+		r.shadow = make([]context.Context, cap(r.slice))
+		copy(r.shadow, ctxs)
+		ctxs = r.slice
+	}
 	r.call("NewPool", func() { r.p = kitctx.NewPool(ctxs...) })
+	r.checkSlice("NewPool")
 	return r, r.observe(6)
+}
+
+// checkSlice: nobody but the caller writes to the caller's slice (spare capacity included).
+func (r *runner) checkSlice(after string) {
+	if r.slice == nil || r.sliceChanged != "" {
+		return
+	}
+	full := r.slice[:cap(r.slice)]
+	for i := range full {
+		if full[i] != r.shadow[i] {
+			r.sliceChanged = fmt.Sprintf("%s (position %d)", after, i)
+			return
+		}
+	}
 }
 
 // do performs one operation on the calling goroutine.
@@ -637,6 +699,21 @@ func (r *runner) do(op c20Op) {
 		r.p.Cancel()
 	case "size":
 		_ = r.p.Size()
+	case "scribble":
+		c := r.cs.get(op.M)
+		r.slice[:cap(r.slice)][op.I] = c
+		r.shadow[op.I] = c
+	case "pool2":
+		s2 := r.slice[:len(op.Ids)]
+		for i, id := range op.Ids {
+			s2[i] = r.cs.get(id)
+			r.shadow[i] = s2[i]
+		}
+		p2 := kitctx.NewPool(s2...)
+		r.checkSlice("NewPool of the second pool")
+		p2.Cancel()
+		d, _ := patience.deadline()
+		waitDone(p2, d)
 	}
 }
 
@@ -669,6 +746,7 @@ func (r *runner) steps(ops []c20Op, lastLook bool) []c20Obs {
 		if !ok {
 			break
 		}
+		r.checkSlice(opsShape(batch))
 		for _, op := range batch {
 			r.ex.apply(op)
 			if !was && r.ex.done() {
@@ -794,6 +872,16 @@ func runScript(t *tally, in c20Input) {
 	c.Class = fmt.Sprintf("script/pre%v/init%v/%s", in.Pre, in.Init, opsShape(in.Ops))
 	c.Trivial = nLiveInit == 0
 	c.Observed = map[string]any{"obs0": obs0, "obs": obs, "final_done": final, "goroutine_left": leak}
+	if in.Spread {
+		c.Class = fmt.Sprintf("spread+%d/", in.CapExtra) + c.Class
+		t.Count("script/pool_created_from_a_spread_slice_the_caller_keeps_using")
+		c.Observed.(map[string]any)["callers_slice_changed_after"] = r.sliceChanged
+		if r.sliceChanged != "" && c.Direct == 0 {
+			c.Direct = 2
+			c.Note = "the pool wrote to the slice its caller spread into NewPool (len or spare capacity): first seen after " + r.sliceChanged
+			t.Count("script/callers_slice_rewritten")
+		}
+	}
 	if anyFast(ops) {
 		c.Coq = fmt.Sprintf("CPScript %s %s %s %s %s %s %s", hx.CoqInts(in.Pre), hx.CoqInts(in.Init),
 			opsCoq(ops), obs0.coq(), pobsCoq(obs), hx.CoqBool(final), hx.CoqBool(leak))
@@ -817,14 +905,17 @@ func runScript(t *tally, in c20Input) {
 // nested: an operation performed inside the Done() method of the context offered to Add
 
 // hookCtx is a context whose Done method runs a callback the first time it is called.
+// The hook is armed only while the harness's own Add call runs: an implementation that keeps the
+// context and asks for Done() later, from another goroutine, just gets the channel.
 type hookCtx struct {
 	context.Context
-	used atomic.Bool
-	hook func()
+	armed atomic.Bool
+	used  atomic.Bool
+	hook  func()
 }
 
 func (h *hookCtx) Done() <-chan struct{} {
-	if h.used.CompareAndSwap(false, true) {
+	if h.armed.Load() && h.used.CompareAndSwap(false, true) {
 		h.hook()
 	}
 	return h.Context.Done()
@@ -864,7 +955,8 @@ func runNested(t *tally, in c20Input) {
 	obs1 := r.steps(in.Ops, false)
 	prefixDone := len(obs1) == len(in.Ops) && !r.stopped()
 
-	var called, inside, ndone bool // ndone: the pool's context was seen done inside the callback
+	var calledA, insideA, ndoneA atomic.Bool // ndone: the pool's context was seen done inside the callback
+	var called, inside, ndone bool
 	nret := true
 	var nres *int64
 	var obsA c20Obs
@@ -874,16 +966,19 @@ func runNested(t *tally, in c20Input) {
 		completed := make(chan struct{})
 		var sizeRes int
 		var npanic bool
-		start := func() { // the nested Cancel() / Size(), on its own goroutine
-			go func() {
-				defer close(completed)
-				defer func() { npanic = recover() != nil }()
-				if in.Nested == "cancel" {
-					p.Cancel()
-				} else {
-					sizeRes = p.Size()
-				}
-			}()
+		var startOnce sync.Once
+		start := func() { // the nested Cancel() / Size(), on its own goroutine; started once
+			startOnce.Do(func() {
+				go func() {
+					defer close(completed)
+					defer func() { npanic = recover() != nil }()
+					if in.Nested == "cancel" {
+						p.Cancel()
+					} else {
+						sizeRes = p.Size()
+					}
+				}()
+			})
 		}
 		endMembers := func() {
 			for _, id := range in.NEnd {
@@ -892,15 +987,15 @@ func runNested(t *tally, in c20Input) {
 		}
 		h := &hookCtx{Context: r.cs.get(in.M)}
 		h.hook = func() {
-			called = true
+			calledA.Store(true)
 			tm := time.NewTimer(wait)
 			defer tm.Stop()
-			defer func() { ndone = isDone(p) }()
+			defer func() { ndoneA.Store(isDone(p)) }()
 			if in.Nested == "end" {
 				endMembers()
 				select {
 				case <-p.Done():
-					inside = true
+					insideA.Store(true)
 				case <-tm.C:
 				}
 				return
@@ -908,11 +1003,15 @@ func runNested(t *tally, in c20Input) {
 			start()
 			select {
 			case <-completed:
-				inside = true
+				insideA.Store(true)
 			case <-tm.C:
 			}
 		}
-		if r.call("Add", func() { p.Add(h) }) {
+		h.armed.Store(true)
+		added := r.call("Add", func() { p.Add(h) })
+		h.armed.Store(false)
+		called, inside, ndone = calledA.Load(), insideA.Load(), ndoneA.Load()
+		if added {
 			if !called { // Add ignored the offer without asking for Done(): the operation comes after it
 				if in.Nested == "end" {
 					endMembers()
@@ -1727,6 +1826,103 @@ func genCancelLive(ctx *core.Ctx) {
 	}
 }
 
+// Pools created as NewPool(s...) from a slice the caller goes on using. The caller overwrites one
+// position (inside the length or in the spare capacity) with a foreign context - one that has
+// already ended, or a live one that ends later - or refills the slice for a second, short-lived
+// pool; the members then end in every order (sampled for 4 live ones). None of this may matter
+// to the pool, and the pool may never write to the slice. Ids: 0..n-1 initial, 4 a live
+// newcomer that is added, 5 an ended foreign context, 6 a live foreign one.
+func genSpread(ctx *core.Ctx) {
+	r := ctx.R
+	s := func(op string, m int) c20Op { return c20Op{Op: op, M: m} }
+	for n := 1; n <= 4; n++ {
+		for mask := 0; mask < 1<<n; mask++ {
+			if bitsSet(mask) > 1 && n > 2 {
+				continue
+			}
+			for _, capExtra := range []int{0, 2} {
+				base := c20Input{Kind: "script", Spread: true, CapExtra: capExtra, Pre: []int{5}}
+				var live []int
+				for i := 0; i < n; i++ {
+					base.Init = append(base.Init, i)
+					if mask&(1<<i) != 0 {
+						base.Pre = append(base.Pre, i)
+					} else {
+						live = append(live, i)
+					}
+				}
+				if n >= 2 && n <= 3 && capExtra == 0 { // the same context twice in the caller's slice
+					dup := base
+					dup.Init = append(append([]int(nil), base.Init...), 0)
+					for _, order := range [][]int{live, reversed(live)} {
+						d := dup
+						for _, m := range order {
+							d.Ops = append(d.Ops, s("end", m))
+						}
+						d.Ops = append(d.Ops, s("size", 0))
+						c20Run(ctx, d)
+						d.Ops = append([]c20Op{{Op: "scribble", I: n, M: 5}}, d.Ops...)
+						c20Run(ctx, d)
+					}
+				}
+				orders := permutations(live)
+				if len(live) > 3 && !ctx.Thorough {
+					orders = [][]int{live, reversed(live), orders[r.Intn(len(orders))], orders[r.Intn(len(orders))]}
+				}
+				ends := func(order []int, extra ...c20Op) []c20Op {
+					var ops []c20Op
+					for i, m := range order {
+						ops = append(ops, s("end", m))
+						if i == 0 {
+							ops = append(ops, extra...)
+						}
+					}
+					return append(ops, s("size", 0))
+				}
+				run := func(ops []c20Op) {
+					in := base
+					in.Ops = ops
+					c20Run(ctx, in)
+				}
+				run(ends(live)) // creation alone: ended contexts before live ones must not be compacted in place
+				positions := n
+				if capExtra > 0 {
+					positions = n + 1
+				}
+				for pos := 0; pos < positions; pos++ {
+					for _, order := range orders {
+						if !ctx.Thorough && n >= 3 && !r.Chance(1, 2) {
+							continue
+						}
+						run(append([]c20Op{{Op: "scribble", I: pos, M: 5}, s("size", 0)}, ends(order)...))
+					}
+					for _, order := range [][]int{live, reversed(live)} {
+						run(append([]c20Op{{Op: "scribble", I: pos, M: 6}}, ends(order, s("end", 6))...))
+					}
+				}
+				for _, order := range [][]int{live, reversed(live)} {
+					ids := []int{5, 6}
+					if n+capExtra < 2 {
+						ids = []int{5}
+					}
+					run(append([]c20Op{{Op: "pool2", Ids: ids}}, ends(order, s("end", 6))...))
+					if capExtra > 0 { // Add may not use the caller's spare capacity
+						run(append([]c20Op{s("add", 4), {Op: "scribble", I: n, M: 5}, s("size", 0)}, append(ends(order), s("end", 4), s("size", 0))...))
+					}
+				}
+			}
+		}
+	}
+}
+
+func reversed(xs []int) []int {
+	out := make([]int, len(xs))
+	for i, x := range xs {
+		out[len(xs)-1-i] = x
+	}
+	return out
+}
+
 func genNested(ctx *core.Ctx) {
 	r := ctx.R
 	waitMs := 40
@@ -1825,6 +2021,7 @@ func c20Gen(ctx *core.Ctx) {
 	genNested(ctx)
 	genFast(ctx)
 	genCancelLive(ctx)
+	genSpread(ctx)
 
 	// --- structured families: pools of 0..4 initial contexts x which of them had already ended
 	// x every order of the member cancellations x one extra operation at every position.
